@@ -265,3 +265,73 @@ func userScenarios(seed uint64) []History {
 	}
 	return out
 }
+
+// cacheenum: every sequence of cache-relevant operations up to a length bound
+// over a universe of three sessions, for N in {-1,0,1,2,3} x SessionCacheExpiry
+// in {short, long, forever} (C12's own quantifier). Operations are spaced in
+// virtual time so that recency ties do not arise.
+func init() {
+	families["cacheenum"] = func(t *testing.T, r *run) {
+		maxLen := r.argInt("len", 3)
+		stride := r.argInt("stride", 1) // emit every stride-th sequence (sampling for the model side)
+		a := func(c int) Addr { return Addr{V4: true, A: 10, B: c, C: 1, D: 1, P: 6000 + c} }
+		req := func(c int, script ...Sop) Hop {
+			return Hop{Kind: "req", Client: c, Create: true, Addr: a(c), Agent: 1, Script: script}
+		}
+		type sym struct {
+			name string
+			hops func(cfg Cfg) []Hop
+		}
+		tick := Hop{Kind: "wait", D: 1_000_000} // 1 ms between operations
+		alphabet := []sym{
+			{"R0", func(Cfg) []Hop { return []Hop{req(0), tick} }},
+			{"R1", func(Cfg) []Hop { return []Hop{req(1), tick} }},
+			{"R2", func(Cfg) []Hop { return []Hop{req(2, Sop{Op: "set", K: 0, V: 5}), tick} }},
+			{"G0", func(Cfg) []Hop { return []Hop{req(0, Sop{Op: "regen"}), tick} }},
+			{"D1", func(Cfg) []Hop { return []Hop{req(1, Sop{Op: "destroy"}), tick} }},
+			{"WL", func(Cfg) []Hop { return []Hop{{Kind: "wait", D: 5 * sec}} }},
+			{"P", func(Cfg) []Hop { return []Hop{{Kind: "purge"}, tick} }},
+			{"N1", func(c Cfg) []Hop { c2 := c; c2.MaxCache = 1; return []Hop{{Kind: "setcfg", Cfg: &c2}, tick} }},
+		}
+		var hs []History
+		id, count := 0, 0
+		ns, ces := []int{-1, 0, 1, 2, 3}, []int64{2 * sec, 3600 * sec, forever}
+		if r.arg("cfgs", "all") == "small" {
+			ns, ces = []int{-1, 0, 1, 2}, []int64{2 * sec, forever}
+		}
+		for _, n := range ns {
+			for _, ce := range ces {
+				cfg := Cfg{Expiry: forever, IDExpiry: forever, Grace: 3 * sec, CacheExpiry: ce, MaxCache: n, AcceptIP: 1, AcceptUA: true, JSON: (n+int(ce%3))%2 == 0}
+				var rec func(prefix []int)
+				rec = func(prefix []int) {
+					if len(prefix) > 0 {
+						count++
+						if count%stride == 0 {
+							h := History{ID: id, Family: "cacheenum", Seed: r.seed + uint64(id), Cfg: cfg, Tmpl: id % 1728}
+							id++
+							c := cfg
+							for _, s := range prefix {
+								hops := alphabet[s].hops(c)
+								for _, hp := range hops {
+									if hp.Kind == "setcfg" {
+										c = *hp.Cfg
+									}
+								}
+								h.Steps = append(h.Steps, hops...)
+							}
+							hs = append(hs, h)
+						}
+					}
+					if len(prefix) == maxLen {
+						return
+					}
+					for s := range alphabet {
+						rec(append(append([]int(nil), prefix...), s))
+					}
+				}
+				rec(nil)
+			}
+		}
+		runHistories(t, r, hs)
+	}
+}
